@@ -18,7 +18,7 @@ Proof.
   destruct t as [|e2 t'].
   - cbn [elems_bytes av1p_body]. remember (elem e) as el eqn:Ee. destruct el as [|x l']; [congruence|].
     rewrite Ee in *. clear Ee x l'. change (zlen [e]) with 1 in Hi.
-    replace (u8 i =? w) with true by (unfold u8; rewrite Z.mod_small by lia; lia).
+    replace (negb (w =? 0) && (i =? w)) with true by lia.
     cbn [rev map]. reflexivity.
   - change (elems_bytes (e :: e2 :: t')) with (write_leb128 (zlen (elem e)) ++ elem e ++ elems_bytes (e2 :: t')) in *.
     set (t := e2 :: t') in *.
@@ -28,7 +28,7 @@ Proof.
     destruct wl as [|x l'].
     { exfalso. symmetry in El. apply app_eq_nil in El as [_ El]. apply app_eq_nil in El as [El _]. congruence. }
     rewrite El in *. clear El x l'.
-    replace (u8 i =? w) with false by (unfold u8; rewrite Z.mod_small by lia; lia).
+    replace (negb (w =? 0) && (i =? w)) with false by lia.
     rewrite (leb128_roundtrip (zlen (elem e)) (elem e ++ elems_bytes t) ltac:(lia)).
     rewrite drop_app_exact, zlen_app. pose proof (zlen_nonneg (elems_bytes t)).
     replace (zlen (elem e) + zlen (elems_bytes t) <? zlen (elem e)) with false by lia.
